@@ -89,9 +89,21 @@ fn check_emit(e: &Emit, cx: &mut Cx) -> Res {
     match e {
         Emit::Direct(m) => {
             let z = m.to_zerv().map_err(|e| Bad::Fail(format!("harness bug: {e}")))?;
-            cx.nt_if(needs_escapes(m));
+            cx.nt_if(needs_escapes(m) || !m.schema.precedence.is_empty());
             cx.label("direct");
-            lossless(&z, cx, true)
+            cx.label_if(!m.schema.precedence.is_empty(), "custom-precedence-order");
+            lossless(&z, cx, true)?;
+            // interchange: passing the object through `version --source stdin --output-format zerv`
+            // without any override or bump gives the same object back (clock-free objects;
+            // epoch 0 is normalised away by design)
+            if m.vars.dirty != Some(true) && m.vars.epoch != Some(0) {
+                let text = z.to_string();
+                match cli::version(&cli::sv(&["--source", "stdin", "--output-format", "zerv"]), Some(&text)) {
+                    cli::Run::Ok(out) => ensure!(out == text, "piping an object through `version --source stdin --output-format zerv` changes it:\n--- in\n{text}\n--- out\n{out}"),
+                    other => return fail(format!("piping an emitted object fails: {}", other.describe())),
+                }
+            }
+            Ok(())
         }
         Emit::Version(c) => {
             let mut a = c01::argv(c);
@@ -259,7 +271,7 @@ pub fn property() -> Property {
         (30_000, 700_000),
         |_| {
             prop_oneof![
-                3 => zg::mzerv(true).prop_map(Emit::Direct),
+                3 => zg::mzerv_p(true).prop_map(Emit::Direct),
                 2 => c01::case_strategy().prop_map(Emit::Version),
                 1 => c04::case_strategy().prop_map(Emit::Flow),
             ]
